@@ -21,6 +21,7 @@ Proved here (for every composition graph, every history, every injective renamin
   the model from the plain composition (`Comp.perfOf`: forked copy of the apply segment carries `persistent`, the
   original apply workers are run): same persistent list, and the action hands every worker exactly what batch apply
   hands it (or is refused for a branching apply segment) — as long as the groups keep their trainers' registrations;
+* `C04_binding_derived` — hence binding in all four modes under hypotheses on the *plain* composition only;
 * `C04_binding_counterexample` — without well-formedness the statement is false: the witness is the composition of
   `m1 >> m2 >> PerfTrackScore` as forml built it *before* the repair fixes/C04-subscription-del.diff (the dangling
   head `Future`s of the pipeline's train/label segments died, `Subscription.__del__` un-registered the first
@@ -28,6 +29,7 @@ Proved here (for every composition graph, every history, every injective renamin
 -/
 import ForML.Lemmas.C04Modes
 import ForML.Lemmas.C04Copy
+import ForML.Lemmas.C04PerfWf
 
 namespace ForML.Persist
 
@@ -265,17 +267,34 @@ theorem C04_perftrack_as_apply (c : Comp) (ρ : Nat → Nat) (hf : FreshFor ρ c
     (gen : Option Nat) (run hp : Nat) :
     step ⟨c, c.perfOf ρ⟩ reg ⟨.perftrack, gen, run, hp⟩ =
       if c.isChain then step ⟨c, c.perfOf ρ⟩ reg ⟨.apply, gen, run, hp⟩ else .error .topology := by
-  simp only [step, Comp.perfOf]
-  split
-  · show runSegment (c.copied ρ) c.applyHead c.applyTail reg ⟨.perftrack, gen, run, hp⟩ = _
+  cases hch : c.isChain with
+  | false => simp only [step, Comp.perfOf, hch, Bool.false_eq_true, if_false]
+  | true =>
+    simp only [step, Comp.perfOf, hch, if_true]
+    show runSegment (c.copied ρ) c.applyHead c.applyTail reg ⟨.perftrack, gen, run, hp⟩ = _
     rw [runSegment_copied hf htail hdist hnt]
     simp only [runSegment]
-  · rfl
+
+/-- **Binding, hypotheses on the plain composition only**: with the perftrack composition derived in the model, every
+history on a well-formed plain composition (whose apply tail feeds no trainer) satisfies the property in all four
+modes. -/
+theorem C04_binding_derived (c : Comp) (ρ : Nat → Nat) (hf : FreshFor ρ c) (hwf : c.wfPlain = true)
+    (htail : c.tailClean = true) (hist : List (Action × Fresh)) (hfresh : FreshOk hist) :
+    HistoryOk ⟨c, c.perfOf ρ⟩ hist :=
+  C04_binding_partial ⟨c, c.perfOf ρ⟩
+    (by simp only [Case.wf, hwf, wfPerf_perfOf hf hwf htail, Bool.and_self]) hist hfresh
 
 /-- non-vacuity: fresh uids `+ 100` for the two-mapper chain; the derived perftrack composition exists and persists
 the same two occurrences -/
 example : chain2.isChain = true ∧ chain2.tailClean = true ∧ chain2.uidsDistinct = true
     ∧ chain2.noTrainer chain2.applyHead chain2.applyTail = true := by decide
 example : (chain2.copied (· + 100)).persistentTags = [some 1, some 2] := by decide
+example : chain2.wfPlain = true := by decide
+example : FreshFor (· + 100) chain2 :=
+  ⟨fun a b h => by simpa using h, fun u v hv => by
+    have : ∀ w ∈ chain2.uids, w < 100 := by decide
+    have := this v hv
+    show u + 100 ≠ v
+    omega⟩
 
 end ForML.Persist
